@@ -56,6 +56,11 @@ func (r *run) buildRules(l []interface{}, defIv int64) (rules []*flow.Rule, out 
 			Threshold:              float64(num) / float64(den),
 			StatIntervalInMs:       uint32(iv),
 		}
+		if m["pace"] == true {
+			// a throttling rule with an unbounded queue next to the reject rules: it never rejects, it only makes requests wait
+			// (the virtual clock advances by the wait), so the rules behind it are reached later
+			fr.ControlBehavior, fr.Threshold, fr.StatIntervalInMs, fr.MaxQueueingTimeMs = flow.Throttling, 1000, 1000, 600000
+		}
 		if ref != 0 {
 			fr.RelationStrategy = flow.AssociatedResource
 			fr.RefResource = r.name(ref)
@@ -69,7 +74,11 @@ func (r *run) buildRules(l []interface{}, defIv int64) (rules []*flow.Rule, out 
 		if eff == 0 {
 			eff = defIv
 		}
-		out = append(out, hx.M{"res": res, "num": num, "den": den, "I": eff, "ref": ref, "bl": hx.Int(m, "bl") * r.unit})
+		o := hx.M{"res": res, "num": num, "den": den, "I": eff, "ref": ref, "bl": hx.Int(m, "bl") * r.unit}
+		if m["pace"] == true {
+			o["pace"] = true
+		}
+		out = append(out, o)
 	}
 	return
 }
@@ -288,7 +297,7 @@ func main() {
 					r.lastAdmit = r.clk.NowMs()
 				}
 			}
-			tr.Emit(o.rec(hx.M{"op": "req", "res": res, "b": b}))
+			tr.Emit(o.rec(hx.M{"op": "req", "res": res, "b": b, "t": r.rel()}))
 		case "tick":
 			clk.AdvanceMs(hx.Int(s, "d") * r.unit)
 			tr.Emit(hx.M{"op": "tick", "t": r.rel()})
